@@ -1441,13 +1441,14 @@ def check(tier, seed):
     boundary = gen_boundary(rng, tier)
     rand = gen_random(rng, tier)
     deep = gen_deep(rng, tier)
+    targets = gen_targets(rng, tier)
     corrupted = []
     for base in valid:
         if base['marks'] or base['ty'] != 2 or len(base['body']) <= 80:
             corrupted += corrupt(rng, base, tier)
     if tier == 'quick' and len(corrupted) > 5000:
         corrupted = rng.sample(corrupted, 5000)
-    cases = valid + boundary + rand + deep + corrupted
+    cases = valid + boundary + rand + deep + targets + corrupted
     t_gen = time.time() - t0
 
     # ---- implementation: Message.unpack + forcing
@@ -1635,3 +1636,60 @@ def check(tier, seed):
     if run.broken() and not run.failing:
         run.coverage['search'] = (f'{n_obs} observations of the real decoders were judged by the RFC table; none failed')
     return run.finish(checker_cmd='make -C coq props/Prop_C03.vo && coqc -Q coq ExaV coq/props/Prop_C03.v (Print Assumptions)')
+
+
+def gen_targets(rng, tier):
+    """small structured families around decoders with inner length fields or number formats (each found a defect once):
+    float-valued extended communities, MVPN routes whose address lengths disagree with the route length, every
+    Prefix-SID TLV at every small size, OPERATIONAL advisories, OPEN with MULTISESSION but without MULTIPROTOCOL"""
+    cases = []
+    # extended communities carrying an IEEE float (flowspec traffic-rate 0x8006, traffic-rate-packets 0x800c) and all (type, subtype)
+    floats = [0x7FC00000, 0x7F800000, 0xFF800000, 0x7F7FFFFF, 0xFF7FFFFF, 0x00000001, 0x80000000, 0x3F800000, 0xBF800000, 0x4F000000, 0x7FFFFFFF]
+    for ctxn in ('as4-all', 'as2-few'):
+        c = ctx(ctxn)
+        for sub in (0x06, 0x0C):
+            for f in floats:
+                ec = bytes([0x80, sub]) + struct.pack('!H', 65000) + struct.pack('!L', f)
+                x = update(mandatory(rng, c) + [attr(0xC0, 16, ec)], nlri=[prefix4(rng, c.addpath)])
+                cases.append(mk(2, x.b, ctxn, 'target', 'extended-community-float'))
+        for t in list(range(0, 0x45)) + [0x80, 0x81, 0x82, 0x83, 0x90, 0xC0, 0xFF]:
+            for sub in (range(0, 0x14) if tier != 'quick' else rng.sample(range(0, 0x14), 4)):
+                ec = bytes([t, sub]) + bytes(rng.choice([0, 0xFF, 0x7F, 0x80, rng.getrandbits(8)]) for _ in range(6))
+                cases.append(mk(2, update(mandatory(rng, c) + [attr(0xC0, 16, ec)], nlri=[prefix4(rng, c.addpath)]).b, ctxn, 'target', 'extended-community-type'))
+    # MVPN (RFC 6514): route type, length, RD, [source AS], source length + address, group length + address
+    for afi in (1, 2):
+        for rtype, fixed in ((5, 8), (6, 12), (7, 12)):
+            for sl in (0, 8, 32, 128, 255):
+                for gl in (0, 8, 32, 128, 255):
+                    for total in {fixed + 2 + 8, fixed + 2 + 32, fixed + 2 + 20, fixed + 2 + (sl + gl) // 8, fixed + 1, fixed + 2 + 4}:
+                        pay = bytearray(rng.getrandbits(8) for _ in range(total))
+                        if total > fixed:
+                            pay[fixed] = sl
+                        if total > fixed + 1 + sl // 8:
+                            pay[fixed + 1 + sl // 8] = gl
+                        route = bytes([rtype, total & 0xFF]) + bytes(pay)
+                        for code, head in ((15, struct.pack('!HB', afi, 5)), (14, struct.pack('!HBB', afi, 5, 4) + bytes([10, 0, 0, 1, 0]))):
+                            cases.append(mk(2, update([attr(0x80, code, head + route)]).b, 'as4-all', 'target', 'mvpn-lengths'))
+    if tier == 'quick':
+        keep = [c for c in cases if c['what'] != 'mvpn-lengths']
+        mv = [c for c in cases if c['what'] == 'mvpn-lengths']
+        cases = keep + rng.sample(mv, 400)
+    # Prefix-SID (RFC 8669 / RFC 9252): every TLV type at every small size
+    for t in (0, 1, 2, 3, 4, 5, 6, 7, 255):
+        for ln in list(range(0, 30)) + [44, 45, 100]:
+            val = bytes(rng.choice([0, 1, 2, 5, 6, 16, 0xFF, rng.getrandbits(8)]) for _ in range(ln))
+            tlv = bytes([t]) + struct.pack('!H', ln) + val
+            c = ctx('as4-all')
+            cases.append(mk(2, update(mandatory(rng, c) + [attr(0xC0, 40, tlv)], nlri=[prefix4(rng, False)]).b, 'as4-all', 'target', 'prefix-sid-tlv'))
+    # OPERATIONAL advisories: ADM / ASM with text of every kind
+    for what in (1, 2):
+        for text in (b'', b'a', b'hello world', b'\xff\xfe', 'é€'.encode(), bytes(2048), bytes(2049), b'x' * 4000, b'line\nbreak"quote\\'):
+            body = struct.pack('!HH', what, 3 + len(text)) + struct.pack('!HB', 1, 1) + text
+            if len(body) <= 4096 - 19:
+                cases.append(mk(6, body, rng.choice(CTXS), 'target', 'operational-advisory', model=len(body) <= 700))
+    # OPEN: MULTISESSION (draft, 0x44 / cisco 0x83) with and without the MULTIPROTOCOL capability it groups on
+    for ms in (cap_tlv(0x44, b''), cap_tlv(0x44, b'\x01'), cap_tlv(0x83, b''), cap_tlv(0x44, b'\x01\x02\x41')):
+        for mp in ([], [cap_tlv(1, struct.pack('!HBB', 1, 0, 1))], [cap_tlv(1, struct.pack('!HBB', 2, 0, 1))]):
+            x = open_body(rng, mp + [ms, cap_tlv(65, struct.pack('!L', 65001))])
+            cases.append(mk(1, x.b, 'ms-few', 'target', 'open-multisession', x.marks, model=True))
+    return cases
